@@ -601,6 +601,41 @@ func runC11(c *kc.Ctx) {
 		}
 	}
 	c.Extra("scenarios_E_asymmetric_eviction_plus_unsolicited_justification", scen-a)
+	a = scen
+	// F. resharing in which one old dealer deals a self-consistent polynomial that does not reshare its old
+	// share: members of the new group with and without an old share must treat it alike
+	wr := 0
+	for i, f := range c11DealFaults {
+		if f == "wrongReshare" {
+			wr = i
+		}
+	}
+	for _, mock := range []bool{true, false} {
+		for n := 3; n <= 5; n++ {
+			for _, t := range thresholds(n) {
+				for _, shape := range []string{"same", "overlap", "disjoint", "grow", "shrink"} {
+					newN := map[string]int{"same": n, "overlap": n, "disjoint": n, "grow": n + 1, "shrink": n - 1}[shape]
+					if newN < 2 {
+						continue
+					}
+					for _, newT := range thresholds(newN) {
+						for pos := 0; pos < n; pos++ {
+							if !c.Thorough() && pos != 0 && pos != n-1 {
+								continue
+							}
+							if !mock && !c.Thorough() && (n+pos+newT)%3 != 0 {
+								continue
+							}
+							sp := &c11Spec{mock: mock, n: n, t: t, fast: (pos+newT)%2 == 1, reshare: shape, newT: newT,
+								rfaults: map[int]c11Fault{pos: {wr, 0, (pos + n) % 3}}, skipIdx: (pos+n)%4 == 3}
+							play(sp, fmt.Sprint("F", mock, n, t, shape, newT, pos))
+						}
+					}
+				}
+			}
+		}
+	}
+	c.Extra("scenarios_F_resharing_of_a_wrong_value", scen-a)
 	flush()
 	c11Rabin(c, rng.Fork("rabin"))
 	c11Protocol(c, rng.Fork("protocol"))
